@@ -54,6 +54,37 @@ def r1(R):
                             'data (getSize())')
 
 
+@rule('C18.R7', 'what the backup takes for "the end of the last complete '
+      'transaction" is one: FileStorage.getSize() is the committed end '
+      '(_pos), not the size of the file', min_instances=1)
+def r7(R):
+    from ..twopc import FS
+    cls = R.prog.cls(FS)
+    f = R.method(cls, 'getSize')
+    g, b, F = R.cfg(f, cls, max_depth=0)
+    n = 0
+    for node in (g.nodes[i] for i in g.reachable()):
+        if node.kind != 'return' or node.ast.value is None:
+            continue
+        n += 1
+        R.instance('FileStorage.getSize: %s' % ast.unparse(node.ast))
+        pv = provenance(node.ast.value, node.frame, F)
+        other = sorted('.'.join(str(x) for x in v) for k, v in pv
+                       if k in ('call', 'path') and v != ('self', '_pos'))
+        if ('path', ('self', '_pos')) not in pv or other:
+            R.violation(
+                node, 'FileStorage.getSize() returns `%s`, which is not '
+                '(only) the end of the committed data%s: while a '
+                'transaction is voted but unfinished repozo copies its '
+                'checkpointed record into the backup and records the larger '
+                'size, so the backup is not a prefix of complete '
+                'transactions' % (
+                    ast.unparse(node.ast.value)[:60],
+                    ' (it depends on ' + ', '.join(other) + ')'
+                    if other else ''))
+    R.require(n >= 1, 'FileStorage.getSize not found')
+
+
 @rule('C18.R2', 'backup files are synced before they get their final name; '
       'recovery writes a .part file and renames it at the end',
       min_instances=2)
@@ -263,7 +294,7 @@ def r4(R):
     def edge(node, st, lab, tgt):
         checked, quick, differs = st
         if node.kind == 'for' and lab == 'T':
-            return (frozenset(), None, None)
+            return (frozenset({'<in-iteration>'}), None, None)
         if node.kind == 'test' and lab in ('T', 'F'):
             for e, truth in implied_atoms(node.ast, lab):
                 if dotted(e) == ('options', 'quick'):
@@ -294,6 +325,14 @@ def r4(R):
             return r
         checked, quick, differs = st
         # arriving at the loop head again / leaving: this file was verified?
+        if node.kind == 'for' and '<in-iteration>' in checked and \
+                'size' not in checked and node.frame.parent is None:
+            # back at the loop head having skipped this entry
+            return Violation('an entry of the .dat file is passed without '
+                             'comparing the size of its file with the '
+                             'recorded one (for instance an empty '
+                             'increment): a missing or altered file is not '
+                             'reported')
         if (node.kind == 'for' or node.id == g.exit_return) and \
                 quick is not None or (node.kind == 'for' and checked):
             if 'size' not in checked and checked is not None and (
